@@ -9,7 +9,11 @@ CHECKS = {
                 "before set_loc or a shape-changing move, and its internal assert is unreachable. Tables of recorded action classes are "
                 "reflected from the live code each run and re-checked by Coq lemmas; the model is tied to run_trace by evaluating it (vm_compute) "
                 "on the op lists of generated kernels (native evaluation of the same source) and on ALL op sequences up to length 3/4 through "
-                "an interpreter kernel.",
+                "an interpreter kernel. The three handlers of ActionTracer are ALSO translated from taskgen.py on every run by symbolic execution of "
+                "their statement lists (harness/gen/tracer_translate.py, fail-closed; the finite class-selection part is executed for all 32 cases) "
+                "and the translation is proved to have the outcome of the hand model on every state and statement (build/C01/Gen_C01_src.v: "
+                "gen_istep_eq, gen_tracer_refines_reference), so the refinement holds of the handlers as written. Every generated kernel with a "
+                "lookup is also compiled with @tweezer(arch_spec=S) and traced without a spec.",
         "note": NOTE_COMMON + " kirin's lowering/type inference/control flow produce the op sequence and are exercised, not verified.",
         "technique": "Coq refinement proof (simulation invariant) + reflected tables + vm_compute correspondence on generated kernels",
     },
@@ -152,8 +156,10 @@ CHECKS = {
     "C11": {
         "text": "Theorems: every path the tracer model yields is well formed (invariant proved for all op sequences) and reversal preserves "
                 "well-formedness. wfb is evaluated in Coq on every path produced by generated kernels, library kernels and their reversals; a Python "
-                "twin of the predicate is the search oracle, and ill-formed canaries must be rejected by both.",
-        "note": NOTE_COMMON + " The tracer model is tied to taskgen.py by C01's correspondence.",
+                "twin of the predicate is the search oracle, and ill-formed canaries must be rejected by both. The handlers of ActionTracer are "
+                "translated from taskgen.py on every run and proved to behave like the model (build/C11/Gen_C11_src.v: "
+                "gen_traced_paths_are_well_formed). Path.path of PLAYED paths is checked on the three path.gen routes, forward and reversed.",
+        "note": NOTE_COMMON + " The tracer model is tied to taskgen.py by C01's correspondence and by the translation.",
         "technique": "Coq invariant proof over all op sequences + vm_compute evaluation of wfb on implementation paths",
     },
     "C12": {
